@@ -7,7 +7,7 @@ from sim import core, build
 from sim.core import Outcome, PRNG, HarnessError, digest_of
 
 KEYS = ['include_dirs', 'library_dirs', 'libraries', 'define_macros', 'extra_compile_args', 'extra_link_args']
-WS = [' ', '  ', '\t', '\n', ' \t ', '\n\n']
+WS = [' ', '  ', '\t', '\n', ' \t ', '\n\n', '\r\n', ' \r', '\f', '\v ']
 WORDS = ['foo', 'bar', 'usr/include/x', '/opt/lib64', 'glib-2.0', 'z', 'A_B', 'with.dot', 'x86_64-linux-gnu', 'm']
 OTHER_C = ['-pthread', '-Wall', '-std=c99', '-fPIC', '--sysroot=/x', '-mfpu=neon', '-O2', '-isystem', '/sys/inc', '-W']
 OTHER_L = ['-pthread', '-Wl,-rpath,/x', '-framework', 'Cocoa', '-rdynamic', '--as-needed', '-static', '-Wl,--no-undefined']
@@ -161,7 +161,10 @@ class C35(core.Check):
         for _ in range(rng.randint(0, 8)):
             r = rng.random()
             if which == 'cflags':
-                if r < 0.35:
+                if r < 0.05:
+                    toks.append(rng.choice(['-I', '-D', '-D=5', '-D=', '-I-', '-I=/sysroot/inc', '-DX=-DY=1', '-d', '-i', '-',
+                                            '-IDIR=a=b', '-D_X=\'a\'', '-I/\u00e9t\u00e9', '-DCAF\u00c9=\u00fc']))
+                elif r < 0.35:
                     toks.append('-I' + rng.choice(['/', '']) + rng.choice(WORDS))
                 elif r < 0.7:
                     name = rng.choice(['NDEBUG', 'VERSION', 'X', '_GNU_SOURCE', 'A1'])
@@ -175,7 +178,10 @@ class C35(core.Check):
                 else:
                     toks.append(rng.choice(OTHER_C))
             else:
-                if r < 0.3:
+                if r < 0.05:
+                    toks.append(rng.choice(['-L', '-l', '-l:libfoo.a', '-L-', '-l-', '-L=/x', '-lfoo=bar', '-', '-Wl,-L/x', '-Wl,-lz',
+                                            '-l\u00e9', '-L/\u00fc/lib']))
+                elif r < 0.3:
                     toks.append('-L' + rng.choice(['/', '']) + rng.choice(WORDS))
                 elif r < 0.7:
                     toks.append('-l' + rng.choice(WORDS))
@@ -207,13 +213,17 @@ class C35(core.Check):
             for flag in ('--cflags', '--libs'):
                 which = flag[2:]
                 if rng.chance(p_fail):
-                    kind = rng.choice(['spawn', 'exit', 'exit_bad_stderr', 'signal', 'bad_stdout'])
+                    kind = rng.choice(['spawn', 'exit', 'exit_bad_stderr', 'signal', 'bad_stdout', 'exit_with_output'])
                     r = dict(lib=lib, flag=flag, kind=kind, rc=0, out='', err='', spawn_errno=None)
                     if kind == 'spawn':
                         r['spawn_errno'] = rng.choice([errno.ENOENT, errno.EACCES, errno.EMFILE, errno.ENOMEM])
                     elif kind == 'exit':
                         r['rc'] = rng.choice([1, 2, 127, 255])
                         r['err'] = "Package %s was not found in the pkg-config search path\n" % lib
+                    elif kind == 'exit_with_output':
+                        r['rc'] = rng.choice([1, 3, 64])
+                        r['out'] = self.join_ws(rng, self.gen_tokens(rng, which) + ['-Ileft', '-lover'])
+                        r['err'] = rng.choice(['', 'Package %s has errors\n' % lib])
                     elif kind == 'exit_bad_stderr':
                         r['rc'] = 1
                         r['err_hex'] = 'ff fe 80 50 61 63 6b'
@@ -224,8 +234,14 @@ class C35(core.Check):
                     resp.append(r)
                 else:
                     toks = self.gen_tokens(rng, which)
-                    resp.append(dict(lib=lib, flag=flag, kind='ok', rc=0, out=self.join_ws(rng, toks), err='',
-                                     spawn_errno=None, unicode=rng.chance(0.05)))
+                    ok = dict(lib=lib, flag=flag, kind='ok', rc=0, out=self.join_ws(rng, toks), err='',
+                              spawn_errno=None, unicode=rng.chance(0.05))
+                    if rng.chance(0.12):       # a successful run that prints warnings
+                        if rng.chance(0.5):
+                            ok['err'] = "Warning: package %s is deprecated\n" % lib
+                        else:
+                            ok['err_hex'] = 'ff fe 80 77 61 72 6e 0a'
+                    resp.append(ok)
         # merge_flags scenario
         m = []
         for _ in range(rng.randint(1, 3)):
@@ -321,6 +337,10 @@ class C35(core.Check):
                 out.violate('C35.1', 'flags_from_pkgconfig(%r): keyword %r is %r, reference translator gives %r'
                             % (libs, k, got.get(k), expected.get(k)), 0)
             else:
+                if any(byq[(lib, f)].get('err') or byq[(lib, f)].get('err_hex') for lib in libs for f in ('--cflags', '--libs')):
+                    out.probe('successful_run_with_warnings_on_stderr')
+                if any(x == '' for k in ('include_dirs', 'library_dirs', 'libraries') for x in expected.get(k, [])):
+                    out.probe('bare_prefix_token')
                 if any('=' in (v or '') for _, v in expected.get('define_macros', [])):
                     out.probe('define_value_containing_equals')
                 if len(libs) >= 2:
